@@ -38,6 +38,7 @@ type Query struct {
 	Goal   string
 	Trace  []string
 	seq    int
+	short  bool
 	prefer string
 	Cover  bool // satisfiable expected (vacuity check): sat/unknown = ok, unsat = vacuous
 	Run    *Run
